@@ -1,6 +1,7 @@
 package main
 
 import (
+	"context"
 	"crypto/sha256"
 	"encoding/hex"
 	"errors"
@@ -39,11 +40,11 @@ const (
 
 type fakeNet struct{ w *world }
 
-func (n fakeNet) ForkVersion() [4]byte                  { return netName.ForkVersion() }
-func (n fakeNet) MinGenesisTime() uint64                { return 0 }
-func (n fakeNet) SlotDurationSec() time.Duration        { return 12 * time.Second }
-func (n fakeNet) SlotsPerEpoch() uint64                 { return slotsPerEpoch }
-func (n fakeNet) EstimatedCurrentSlot() phase0.Slot     { return phase0.Slot(n.w.clock) }
+func (n fakeNet) ForkVersion() [4]byte                    { return netName.ForkVersion() }
+func (n fakeNet) MinGenesisTime() uint64                  { return 0 }
+func (n fakeNet) SlotDurationSec() time.Duration          { return 12 * time.Second }
+func (n fakeNet) SlotsPerEpoch() uint64                   { return slotsPerEpoch }
+func (n fakeNet) EstimatedCurrentSlot() phase0.Slot       { return phase0.Slot(n.w.clock) }
 func (n fakeNet) EstimatedSlotAtTime(t int64) phase0.Slot { return phase0.Slot(t / 12) }
 func (n fakeNet) EstimatedTimeAtSlot(s phase0.Slot) int64 { return int64(s) * 12 }
 func (n fakeNet) EstimatedCurrentEpoch() phase0.Epoch {
@@ -109,7 +110,7 @@ type proxyDB struct {
 	// other handle on the database, so this is the set of keys that can exist; dumps and wipes use
 	// point reads on it instead of badger iterators (whose cost grows with every stale version in
 	// the in-memory memtable). Cross-checked against a real iteration (world.crossCheck) at the end.
-	keys map[string]trackedKey
+	keys    map[string]trackedKey
 	version int // bumped on every write attempt / harness-side change of the database
 }
 
@@ -383,6 +384,9 @@ type world struct {
 	atts  []relAtt
 	blks  []relBlk
 	start uint64
+	// shut: the node context has been cancelled (shutdown began) but the database is still open;
+	// requests that are in flight keep arriving until the restart
+	shut bool
 
 	dumpCache   [][2][]byte
 	dumpVersion int
@@ -448,6 +452,7 @@ var dbPrefix = []byte(string(netName) + "signer_data-")
 // reset brings the world to the initial state: empty DB, clock at start, a key manager freshly
 // constructed on it (which creates and stores the empty wallet, as a first boot does).
 func (w *world) reset(start uint64) {
+	w.setShut(false)
 	w.px.version++
 	if len(w.px.keys) > 0 {
 		err := w.inner.Update(func(txn basedb.Txn) error {
@@ -479,6 +484,7 @@ func (w *world) reset(start uint64) {
 // bytes back and constructing the key manager on them, which is how the node itself gets from a
 // database to a running signer. Every restore is verified against the canonical state.
 type snapshot struct {
+	shut    bool
 	kvs     []trackedKV
 	clock   uint64
 	errNext bool
@@ -511,7 +517,7 @@ func (w *world) clean() bool {
 }
 
 func (w *world) snapshot() *snapshot {
-	sn := &snapshot{clock: w.clock, errNext: w.px.errNext, down: w.km == nil, atts: w.atts, blks: w.blks}
+	sn := &snapshot{clock: w.clock, errNext: w.px.errNext, down: w.km == nil, atts: w.atts, blks: w.blks, shut: w.shut}
 	ks := make([]string, 0, len(w.px.keys))
 	for k := range w.px.keys {
 		ks = append(ks, k)
@@ -530,7 +536,19 @@ func (w *world) snapshot() *snapshot {
 	return sn
 }
 
+// setShut cancels / renews the database's context.
+func (w *world) setShut(shut bool) {
+	w.shut = shut
+	ctx, cancel := context.WithCancel(context.Background())
+	if shut {
+		cancel()
+	}
+	_ = cancel
+	w.inner.VerifSetCtx(ctx)
+}
+
 func (w *world) restore(sn *snapshot) {
+	w.setShut(false)
 	err := w.inner.Update(func(txn basedb.Txn) error {
 		for _, k := range w.px.keys {
 			if err := txn.Delete(k.prefix, k.key); err != nil {
@@ -562,11 +580,15 @@ func (w *world) restore(sn *snapshot) {
 		}
 	}
 	w.px.errNext = sn.errNext
+	if sn.shut {
+		w.setShut(true)
+	}
 }
 
 // restart = what a process restart is for the key manager: every in-memory object is dropped and
 // NewETHKeyManagerSigner runs again on the same database.
 func (w *world) restart() (errStr string) {
+	w.setShut(false) // the database is opened again
 	w.km = nil
 	w.px.dirty = true
 	net := networkconfig.NetworkConfig{Beacon: fakeNet{w}, Domain: networkconfig.TestNetwork.Domain}
@@ -693,6 +715,10 @@ func (w *world) do(o op, out *outcome) {
 		w.px.dirty = true
 		w.px.version++
 		out.Label = "del-prop"
+	case "shutdown":
+		w.setShut(true)
+		w.px.dirty = true
+		out.Label = "shutdown-begins"
 	case "err-read":
 		w.px.errNext = true
 		w.px.dirty = true
@@ -927,7 +953,7 @@ func (w *world) canonText() string {
 	}
 	sort.Strings(accounts)
 	var sb strings.Builder
-	fmt.Fprintf(&sb, "clock=%d errNext=%v\n", w.clock, w.px.errNext)
+	fmt.Fprintf(&sb, "clock=%d errNext=%v shut=%v\n", w.clock, w.px.errNext, w.shut)
 	sb.WriteString("db " + rename(walletDB) + "\n")
 	for _, a := range accounts {
 		sb.WriteString("db " + a + "\n")
